@@ -115,6 +115,14 @@ func HarnessEvents() {
 	path := zz.TempPath("events.db")
 	db := zzMustOpen(path, c, "events")
 	zzSetup(db, zz.Param("setup", 1))
+	if zz.Param("reopenflip", 0) == 1 {
+		// the file was written under one freelist-sync setting and is reopened under the other one; no
+		// commit has happened yet under the new setting when the event program starts
+		zz.Assert(db.Close() == nil, "events/close-before-flip")
+		c.noFLSync = !c.noFLSync
+		db = zzMustOpen(path, c, "events/reopen-flipped")
+		zz.Reach("reopened-flipped")
+	}
 	nev := zz.Param("events", 3)
 	maxR := zz.Param("readers", 2)
 	var readers []*zzReader
